@@ -304,6 +304,7 @@ typedef kit::ElemNtm EN; typedef kit::ElemCpo EC;
 // when they throw; an injected FUNCTOR failure landing inside it is an artefact of the injection, so it is switched off here.
 struct HSet : HashSetSettings { static const ExtraCheckMode extraCheckMode = ExtraCheckMode::nothing; };
 struct HMap : HashMapSettings { static const ExtraCheckMode extraCheckMode = ExtraCheckMode::nothing; };
+struct TSetS : TreeSetSettings { static const ExtraCheckMode extraCheckMode = ExtraCheckMode::nothing; };
 struct HMMap : HashMultiMapSettings { static const ExtraCheckMode extraCheckMode = ExtraCheckMode::nothing; };
 template<class E, class HT> using HSetT = HashSet<E, HT, kit::MM, HashSetItemTraits<E, kit::MM>, HSet>;
 template<class E, class HT> using HMapT = HashMap<E, E, HT, kit::MM, HashMapKeyValueTraits<E, E, kit::MM>, HMap>;
@@ -340,7 +341,7 @@ static bool dispatch(const std::string& scn, const std::string& el, size_t p)
 	if (scn == "hmap") { if (n) scn_map<HMapT<EN, HTd<EN>>, EN, EN, HTd<EN>>(p); else scn_map<HMapT<EC, HTd<EC>>, EC, EC, HTd<EC>>(p); }
 	else if (scn == "hmm") { if (n) scn_hmm<HMMapT<EN, HTd<EN>>, EN, EN>(p); else scn_hmm<HMMapT<EC, HTd<EC>>, EC, EC>(p); }
 	else if (scn == "tset") { if (n) scn_tset<TreeSet<EN, TTs<EN>, kit::MM>, EN>(p); else scn_tset<TreeSet<EC, TTs<EC>, kit::MM>, EC>(p); }
-	else if (scn == "tsetf") { if (n) scn_tset<TreeSet<EN, TTf<EN>, kit::MM>, EN>(p); else scn_tset<TreeSet<EC, TTf<EC>, kit::MM>, EC>(p); }
+	else if (scn == "tsetf") { if (n) scn_tset<TreeSet<EN, TTf<EN>, kit::MM, TreeSetItemTraits<EN, kit::MM>, TSetS>, EN>(p); else scn_tset<TreeSet<EC, TTf<EC>, kit::MM, TreeSetItemTraits<EC, kit::MM>, TSetS>, EC>(p); }
 	else if (scn == "tsmall")
 	{	// tiny nodes, one block per pool buffer, no cache: every node is its own block, so a read of a freed node is a heap
 		// use-after-free that ASan sees (root collapse in pvRebalance, fix c72d55b); inserts ascending, removes from the front
